@@ -860,6 +860,7 @@ def move(snapshot, param_str):
         if src_bank and dest_bank:
             s = src % 0x4000
             d = dest % 0x4000
+            length = min(length, 0x4000 - s, 0x4000 - d)
             dest_bank[d:d + length] = src_bank[s:s + length]
 
 def poke(snapshot, param_str):
